@@ -1,0 +1,84 @@
+//go:build verif
+
+package ramfs
+
+// Verification hooks (build tag "verif" only): a fresh, non-global file
+// server per test history, and read-only views of its state.
+
+import (
+	"errors"
+	"fmt"
+	"sort"
+
+	p9p "github.com/frobnitzem/go-p9p"
+)
+
+// NewTestServer returns a new file server with an empty root, independent
+// of the global one served by NewServer.
+func NewTestServer() p9p.FileSys {
+	fs := &fServer{lastpath: 1}
+	fs.root = &FileEnt{
+		nref:     1,
+		children: make(map[string]*FileEnt),
+		fs:       fs,
+		Info:     newDir(1, "/", "root", p9p.DMDIR|0775),
+	}
+	return fs
+}
+
+// VerifValidate checks that the reference count of every node reachable from
+// the root equals its number of parent links (the root counts one for itself).
+func VerifValidate(f p9p.FileSys) error {
+	fs, ok := f.(*fServer)
+	if !ok {
+		return errors.New("not a ramfs server")
+	}
+	tgts := map[*FileEnt]int{fs.root: 1}
+	todo := []*FileEnt{fs.root}
+	for len(todo) > 0 {
+		n := todo[len(todo)-1]
+		todo = todo[:len(todo)-1]
+		if !n.IsDir() && len(n.children) > 0 {
+			return fmt.Errorf("%s: file has children", n.Info.Name)
+		}
+		for _, c := range n.children {
+			if _, seen := tgts[c]; !seen {
+				todo = append(todo, c)
+			}
+			tgts[c]++
+		}
+	}
+	for n, links := range tgts {
+		if n.nref != links {
+			return fmt.Errorf("node %q (qid path %d): reference count %d, parent links %d", n.Info.Name, n.Info.Qid.Path, n.nref, links)
+		}
+	}
+	return nil
+}
+
+// VerifTree returns the live tree as "path -> kind:qidpath:data" lines, sorted.
+func VerifTree(f p9p.FileSys) []string {
+	fs, ok := f.(*fServer)
+	if !ok {
+		return nil
+	}
+	var out []string
+	var walk func(p string, n *FileEnt)
+	walk = func(p string, n *FileEnt) {
+		kind := "file"
+		if n.IsDir() {
+			kind = "dir"
+		}
+		out = append(out, fmt.Sprintf("%s %s %d %x", p, kind, n.Info.Qid.Path, n.Data))
+		names := make([]string, 0, len(n.children))
+		for nm := range n.children {
+			names = append(names, nm)
+		}
+		sort.Strings(names)
+		for _, nm := range names {
+			walk(p+"/"+nm, n.children[nm])
+		}
+	}
+	walk("", fs.root)
+	return out
+}
